@@ -28,7 +28,7 @@ func init() {
 			"arrival time stamp of a message = accumulated Driver.Sleep time of the Send call that carried its last byte (C04)",
 			"inter-arrival gaps are kept below 0x07FFFFFF ticks at the recording tempo and resolution (a delta must be representable in the file)",
 		},
-		Require: []string{"recordings", "channel_messages_recorded", "non_channel_messages_sent", "realtime_sent", "syscommon_sent", "strict_validated", "read_back", "delta_checks", "file_level_recordings", "recordings_with_long_pause", "recordings_with_oversized_sysex"},
+		Require: []string{"recordings", "channel_messages_recorded", "non_channel_messages_sent", "realtime_sent", "syscommon_sent", "strict_validated", "read_back", "delta_checks", "file_level_recordings", "recordings_with_long_pause", "recordings_with_oversized_sysex", "long_sessions_beyond_2^32_ticks"},
 		Run:     runC13,
 	})
 }
@@ -338,6 +338,57 @@ func runC13(c *mon.Ctx) {
 			c.Sample("recording", "Track.RecordFrom on a testdrv loopback; see rule")
 		}
 	})
+	// long sessions: many near-maximal gaps, the cumulative position passes 2^32 ticks
+	c.Each("long-sessions", c.N(24, 600), func(i int64, r *mon.Rand) {
+		res := uint16(r.Pick(15360, 12000, 9600, 15360))
+		bpm := float64(r.Pick(400, 360, 400, 300))
+		n := r.Range(40, 90)
+		l := newL2()
+		var tr smf.Track
+		var stop func()
+		var err error
+		in := map[string]any{"resolution": res, "bpm": bpm, "messages": n, "scenario": "one channel message per Send, near-maximal gaps (up to 0x07FFFFFF ticks each), total beyond 2^32 ticks"}
+		if c.Guard("panic:RecordFrom", in, func() { stop, err = tr.RecordFrom(l.in, smf.MetricTicks(res), bpm) }) || err != nil {
+			return
+		}
+		maxMs := math.Floor(float64(0x07FFFFFF) * 60000 / (float64(res) * bpm))
+		l.drv.Sleep(c13BaseMs * time.Millisecond)
+		var gaps []int64
+		var total int64
+		for k := 0; k < n; k++ {
+			g := int64(maxMs) - int64(r.Intn(1000))
+			if r.P(1, 5) {
+				g = int64(r.Intn(500))
+			}
+			if k == 0 {
+				g = 0
+			}
+			gaps = append(gaps, g)
+			total += c13ExpectedTicks(g, res, bpm)
+			l.drv.Sleep(time.Duration(g) * time.Millisecond)
+			l.out.Send([]byte{0x90 | byte(k&15), byte(k & 127), 100})
+		}
+		stop()
+		c.Count("recordings", 1)
+		c.Count("long_sessions", 1)
+		if total > 1<<32 {
+			c.Count("long_sessions_beyond_2^32_ticks", 1)
+		}
+		if len(tr) != n+1 {
+			c.Violation("content", fmt.Sprintf("long session: %d messages sent, %d events recorded after the tempo event", n, len(tr)-1), in, n, len(tr)-1)
+			return
+		}
+		for k := 1; k < n; k++ { // tr[0] tempo, tr[1] first message (session offset), deltas from the second message on
+			x := c13ExpectedTicks(gaps[k], res, bpm)
+			c.Count("delta_checks", 1)
+			if d := int64(tr[k+1].Delta) - x; d > 1 || d < -1 {
+				c.Violation("delta", fmt.Sprintf("long session: message %d arrived %d ms after the previous one = %d ticks, recorded delta %d (cumulative position %d ticks)", k, gaps[k], x, tr[k+1].Delta, total), in, x, tr[k+1].Delta)
+				return
+			}
+		}
+		c.DistinctBytes([]byte(fmt.Sprint("long", i, res, bpm, gaps)))
+	})
+
 	// SMF.RecordFrom / smf.RecordTo: their stop functions sleep one second each
 	c.Each("file-recordings", c.N(32, 480), func(i int64, r *mon.Rand) {
 		record(r, fmt.Sprintf("file-%d", i), 1+int(i%2))
